@@ -338,6 +338,67 @@ func runC19(c *seqCtx) {
 			run(c19Case{Fault: f})
 		}
 	}
+	// two consecutive calls, the first answered twice (a duplicate, or a second responder), explored at bound 2:
+	// the second call must return the response to its own request
+	if c.Mine() {
+		ex := &vsched.Explorer{Bound: 2, Cache: true, MaxViol: 5,
+			Body: func() {
+				envnats.Reset()
+				conn := envnats.New()
+				inbox := make(chan string, 2)
+				conn.OnPub = func(m envnats.Msg) {
+					if m.Reply != "" {
+						vsched.Send(inbox, m.Reply)
+					}
+				}
+				vsched.Go("E", func() {
+					ib := vsched.Recv(inbox)
+					conn.Inject(ib, "", []byte(`{"result":1}`))
+					conn.Inject(ib, "", []byte(`{"result":1001}`))
+					ib = vsched.Recv(inbox)
+					conn.Inject(ib, "", []byte(`{"result":2}`))
+				})
+				for i := 1; i <= 2; i++ {
+					resp := resprot.SendRequest(conn, "call.t.x.m", nil, c19Timeout)
+					got := "error"
+					if !resp.HasError() {
+						got = strings.TrimSpace(string(resp.Result))
+					}
+					vsched.Emit(scen.Mon, fmt.Sprintf("call %d returned %s", i, got))
+				}
+				vsched.AwaitQuiescence()
+				vsched.Emit(scen.Mon, fmt.Sprintf("activesubs %d", len(conn.ActiveSubs())))
+			},
+			Check: func(r *vsched.Result) []string {
+				var v []string
+				for _, e := range r.Events {
+					switch {
+					// (the virtual clock may let either call time out: "error" is allowed, a foreign response is not)
+					case strings.HasPrefix(e.Text, "call 1 returned ") && e.Text != "call 1 returned 1" && e.Text != "call 1 returned error",
+						strings.HasPrefix(e.Text, "call 2 returned ") && e.Text != "call 2 returned 2" && e.Text != "call 2 returned error":
+						v = append(v, "C19: two consecutive calls, the first answered twice: "+e.Text+" (want the first response to its own request)")
+					case strings.HasPrefix(e.Text, "activesubs ") && e.Text != "activesubs 0":
+						v = append(v, "C19: after two consecutive calls the connection still holds a subscription: "+e.Text)
+					}
+				}
+				if r.Deadlock {
+					v = append(v, "C19: two consecutive calls: deadlock")
+				}
+				for _, p := range r.Panics {
+					v = append(v, "C19: two consecutive calls: panic: "+firstLineOf(p))
+				}
+				return v
+			}}
+		ok := ex.Explore()
+		for _, vi := range ex.Violations {
+			c.Fail("C19", strings.TrimPrefix(vi.Desc, "C19: ")+fmt.Sprintf(" choices=%v", vi.Choices), "|twocalls")
+		}
+		if !ok && len(ex.Violations) == 0 {
+			c.out.Exhaustive = false
+		}
+		c.Extra("schedules", ex.Execs)
+		c.Eval("twocalls")
+	}
 	// 50 consecutive calls leave no subscription behind
 	if c.Mine() {
 		r := scen.RunSeq(func() {
@@ -348,13 +409,17 @@ func runC19(c *seqCtx) {
 			vsched.Go("E", func() {
 				for i := 0; i < 50; i++ {
 					ib := vsched.Recv(inbox)
-					conn.Inject(ib, "", []byte(`{"result":1}`))
+					// every request is answered twice (a duplicate, or a second responder): the first one counts
+					conn.Inject(ib, "", []byte(fmt.Sprintf(`{"result":%d}`, i)))
+					conn.Inject(ib, "", []byte(fmt.Sprintf(`{"result":%d}`, 1000+i)))
 				}
 			})
 			for i := 0; i < 50; i++ {
 				resp := resprot.SendRequest(conn, "call.t.x.m", nil, c19Timeout)
 				if resp.HasError() {
 					vsched.Emit(scen.Mon, "call failed "+resp.Error.Code)
+				} else if got := strings.TrimSpace(string(resp.Result)); got != fmt.Sprint(i) {
+					vsched.Emit(scen.Mon, fmt.Sprintf("call failed: request #%d returned %s, the first response to it was %d", i, got, i))
 				}
 			}
 			vsched.Emit(scen.Mon, fmt.Sprintf("activesubs %d of %d", len(conn.ActiveSubs()), len(conn.Subs)))
